@@ -21,7 +21,7 @@ pub const SPEC: PropSpec = PropSpec {
 	],
 	cases: (50_000_000, 4_000_000_000),
 	secs: (30, 600),
-	required: &["outcome:ok-exact", "outcome:err-as-required", "cells_hit", "union_order_probes", "union_order_probes_ok_selected"],
+	required: &["outcome:ok-exact", "outcome:err-as-required", "cells_hit", "union_order_probes", "union_order_probes_ok_selected", "datum_into_short_writing_sink_equal"],
 	run_case,
 	once: None,
 	panics_are_violations: true,
@@ -796,6 +796,24 @@ pub fn judge(ctx: &mut Ctx, case_seed: u64, nk: &str, rs: &RSchema, call: &Call,
 		cfg.allow_slow_sequence_to_bytes();
 	}
 	let res = serde_avro_fast::to_datum_vec(call, &mut cfg).map_err(|e| e.to_string());
+	if let (Ok(bytes), true) = (&res, rng.chance(1, 6)) {
+		// what reaches a writer that accepts only part of each write must be the same bytes
+		let (sched, native) = crate::sut::pick_datum_sink_schedule(rng);
+		let mut cfg2 = serde_avro_fast::ser::SerializerConfig::new(&schema);
+		if allow_slow {
+			cfg2.allow_slow_sequence_to_bytes();
+		}
+		let got = serde_avro_fast::to_datum(call, crate::io::ScheduledSink::new(sched.clone(), native), &mut cfg2).map(|s| s.out).map_err(|e| e.to_string());
+		if got.as_ref().ok() != Some(bytes) {
+			ctx.violation(
+				format!("bytes-depend-on-the-writer's-write-granularity call={}", call.kind()),
+				case_seed,
+				json!({"schema": rs.spell(None).compact(), "call": call.short(), "into_vec": hex(bytes), "into_sink": format!("{:?}", got.map(|b| hex(&b))).chars().take(500).collect::<String>(), "schedule": sched, "native_write_vectored": native}),
+			);
+			return;
+		}
+		ctx.count("datum_into_short_writing_sink_equal");
+	}
 	let exp = expect(rs, 0, call, &Opts { allow_slow_seq_to_bytes: allow_slow });
 	let cellname = cell_name(nk, rs, call, res.as_ref().ok().map(|b| b.as_slice()));
 	ctx.count("cells_hit");
